@@ -50,7 +50,7 @@ Reset ==
   /\ phase' = "run" /\ ops' = 0 /\ spur' = 0
   /\ last' = [a |-> "init"]
   /\ obs' = ObsOf(InitR, [n \in Nodes |-> TRUE], <<>>)
-  /\ M' = [bad |-> {}, tags |-> {}, dis |-> {}, g |-> [x \in Nodes |-> IF Formed THEN [join |-> 1, leave |-> -1, sil |-> -1] ELSE NoG]]
+  /\ M' = [bad |-> {}, tags |-> {}, fl |-> {}, flx |-> {}, dis |-> {}, g |-> [x \in Nodes |-> IF Formed THEN [join |-> 1, leave |-> -1, sil |-> -1] ELSE NoG]]
 
 Resync ==
   LET act == Line.act  o == Line.obs
